@@ -46,6 +46,11 @@ def run(ck):
     per_query_tasks(ck)
     from .c17 import frame_integrity
     frame_integrity(ck, "C10.8")
+    run_global_conditions(ck)
+    ck.clause("C10.9", "whether a molecule gets a record does not depend on how many other molecules are in the run: every path of "
+                       "execute applies the same aligned-pairs test to its rows (as C01.1)")
+    from .c01 import non_empty_filter
+    non_empty_filter(ck, "C10.9")
     ck.clause("C10.7", "what happens to one query's rows does not stop the processing of the other queries' rows: the loops over row "
                        "groups have no early exit (as C08.5)")
     from ..report import RuleView
@@ -55,6 +60,45 @@ def run(ck):
     n_b = run_iterator_rule(ck, "C10.5")
     ck.floor("C10.5 single-use iterators bound to a local name (repository-wide)", n_b, 6)
     ck.ok("C10.5", "repository", "src/, sv/", f"{n_b} single-use iterators bound to a name, each read once (cursor idiom next(it) excepted)")
+
+
+def run_global_conditions(ck):
+    """C10.10: in the coordinators' execute, no branch is taken on a property of a whole-run row list (is the list of all
+    second-pass rows empty? how many rows are there?): such a test makes what is written for one molecule depend on whether
+    some other molecule of the file produced a row"""
+    from ..rules.modes import multipass_execute
+    ck.clause("C10.10", "no decision of the coordinators looks at a whole-run list of rows (its emptiness, its length): what one "
+                        "molecule gets must not depend on what the others produced")
+    p = ck.ctx.p
+    fns = [multipass_execute(ck), p.find_method("_WorkflowCoordinator", "execute"),
+           p.find_method("_MultiPassWorkflowCoordinator", "getSecondPassAlignmentRows")]
+    producers = ("_WorkflowCoordinator.execute", "getSecondPassAlignmentRows", "filterOutSubsequentAlignmentsForSingleQuery",
+                 "AlignmentResults.resolve")
+    n = 0
+    seen = set()
+    for fn in fns:
+        for pa in explore(ck, fn, unroll=(0, 1)):
+            n += 1
+            for c, tv, node in pa.state.assumptions:
+                c0, _ = T.positive(T.as_bool(c))
+                subject = None
+                if c0[0] in ("app", "call", "comp", "concat", "idx") and any(
+                        x[0] == "app" and x[1].endswith(producers) for x in T.subterms(c0)):
+                    subject = c0                      # truthiness of a row list
+                elif c0[0] in ("lt", "le", "eq", "ne"):
+                    lens = [x for x in T.subterms(c0) if x[0] == "call" and x[1] == "len" and any(
+                        y[0] == "app" and y[1].endswith(producers) for y in T.subterms(x))]
+                    if lens:
+                        subject = lens[0]
+                if subject is not None and (id(node), T.show(subject)[:80]) not in seen:
+                    seen.add((id(node), T.show(subject)[:80]))
+                    ck.violation("C10.10", short(fn) + ":run-global-test", where(fn, node),
+                                 "a branch is taken on a whole-run list of rows: the record (or file) a molecule ends up in depends on "
+                                 "whether the *other* molecules of the run produced rows", found=T.show(c)[:200],
+                                 required="per-row / per-query decisions only")
+    ck.floor("C10.10 coordinator paths examined", n, 5)
+    if not seen:
+        ck.ok("C10.10", "coordinators", fns[0].where, f"{n} paths of the coordinators' execute methods: no test on a whole-run row list")
 
 
 def per_query_tasks(ck):
